@@ -443,6 +443,11 @@ class RunBundler:
         compose_event = stream_bundle[1]
 
         def emit_event(readings: Optional[dict[str, Reading]] = None, *args, **kwargs):
+            if self._monitor_params.get(obj, (None,))[0] is not emit_event:
+                # This callback is no longer installed ('unmonitor' or the end of the
+                # run removed it) but the device was already delivering an update
+                # from its own thread: the run may be closed by now, drop the update.
+                return
             if readings is not None:
                 # We were passed something we can use, but check no args or kwargs
                 assert not args and not kwargs, (
